@@ -1338,3 +1338,111 @@ B('k18_mv_get_main_mixin_try_around_loop', ['C18'], 'R18.c', (NEWMOD, '', _MIXIN
             full_ctx['exc_content'] = repr(e)
         return full_ctx
 ''')), *_MIXIN_EDITS)
+
+
+# ---- R18.c: every call of a method of a peripheral in a routed view is peripheral code (not only the three the views make today) --
+_TITLE_METHOD = ("    def get_extra_routes(self):\n        return []\n", "    def get_extra_routes(self):\n        return []\n\n    def get_title(self):\n        return self.title\n")
+_CUR_HEAD = "            cur = {'title': peri.title,\n                   'group_key': peri.group_key}\n"
+B('k18_peri_method_unprotected_in_render', ['C18'], 'R18.c', (META,) + _TITLE_METHOD,
+  (META, _CUR_HEAD, "            cur = {'title': peri.get_title(),\n                   'group_key': peri.group_key}\n"))
+B('k18_peri_method_unprotected_in_get_main', ['C18'], 'R18.c', (META,) + _TITLE_METHOD,
+  (META, "            full_ctx.setdefault(peri.group_key, {}).update(peri_ctx)", "            full_ctx.setdefault(peri.group_key, {}).update(peri_ctx)\n            full_ctx.setdefault('titles', []).append(peri.get_title())"))
+B('k18_peri_method_injected_unprotected', ['C18'], 'R18.c', (META,) + _TITLE_METHOD,
+  (META, _CUR_HEAD, "            cur = {'title': inject(peri.get_title, {}),\n                   'group_key': peri.group_key}\n"))
+B('k18_peri_method_unprotected_in_helper', ['C18'], 'R18.c', (META,) + _TITLE_METHOD,
+  (META, _CUR_HEAD, "            cur = _section_head(peri)\n"),
+  (META, "def _process_items(all_items):", "def _section_head(peri):\n    return {'title': peri.get_title(), 'group_key': peri.group_key}\n\n\ndef _process_items(all_items):"))
+B('k18_peri_method_unprotected_comprehension', ['C18'], 'R18.c', (META,) + _TITLE_METHOD,
+  (META, "        general_items = context['general'] = []\n", "        general_items = context['general'] = []\n        context['titles'] = [peri.get_title() for peri in self.peripherals]\n"))
+T('k18_peri_method_protected_in_render', ['C18'], (META,) + _TITLE_METHOD,
+  (META, "                cur_context = context[peri.group_key]\n", "                cur['title'] = peri.get_title()\n                cur_context = context[peri.group_key]\n"))
+T('k18_peri_method_protected_in_get_main', ['C18'], (META,) + _TITLE_METHOD,
+  (META, "                peri_ctx = inject(peri.get_context, kwargs)\n", "                peri_ctx = inject(peri.get_context, kwargs)\n                peri_ctx = dict(peri_ctx, title=peri.get_title())\n"))
+T('k18_peri_method_protected_helper_call', ['C18'], (META,) + _TITLE_METHOD,
+  (META, "                cur_context = context[peri.group_key]\n", "                cur.update(_section_head(peri))\n                cur_context = context[peri.group_key]\n"),
+  (META, "def _process_items(all_items):", "def _section_head(peri):\n    return {'title': peri.get_title(), 'group_key': peri.group_key}\n\n\ndef _process_items(all_items):"))
+T('k18_peri_method_outside_views', ['C18'], (META,) + _TITLE_METHOD,
+  (META, "            routes.extend(peri.get_extra_routes())\n", "            routes.extend(peri.get_extra_routes())\n            peri.get_title()\n"))
+
+# ---- R18.c: what the code after the try statement reads is bound on the failure path as well ------------------------------
+B('k18_result_unbound_handler_logs', ['C18'], 'R18.c', (META, "                peri_ctx = {'exc_content': repr(e)}\n", "                full_ctx.setdefault('errors', []).append(repr(e))\n"))
+B('k18_result_unbound_handler_stores_container', ['C18'], 'R18.c', (META, "            except Exception as e:\n                cur_general_items = []\n",
+                                                                          "            except Exception as e:\n                cur['general_exc'] = repr(e)\n"))
+B('k18_result_stale_default_before_loop', ['C18'], 'R18.c',
+  (META, "        for peri in self.peripherals:\n            try:\n                peri_ctx = inject(peri.get_context, kwargs)\n            except Exception as e:\n                peri_ctx = {'exc_content': repr(e)}\n",
+         "        peri_ctx = {}\n        for peri in self.peripherals:\n            try:\n                peri_ctx = inject(peri.get_context, kwargs)\n            except Exception as e:\n                full_ctx['exc_content'] = repr(e)\n"))
+B('k18_result_unbound_in_helper', ['C18'], 'R18.c', (META, GMAIN, '''        for peri in self.peripherals:
+            full_ctx.setdefault(peri.group_key, {}).update(self._peri_context(peri, kwargs, full_ctx))
+        return full_ctx
+
+    def _peri_context(self, peri, kwargs, full_ctx):
+        try:
+            peri_ctx = inject(peri.get_context, kwargs)
+        except Exception as e:
+            full_ctx.setdefault('errors', []).append(repr(e))
+        return peri_ctx
+'''))
+T('k18_result_default_in_iteration', ['C18'], (META, GMAIN, '''        for peri in self.peripherals:
+            peri_ctx = None
+            try:
+                peri_ctx = inject(peri.get_context, kwargs)
+            except Exception as e:
+                exc = repr(e)
+            if peri_ctx is None:
+                peri_ctx = {'exc_content': exc}
+            full_ctx.setdefault(peri.group_key, {}).update(peri_ctx)
+        return full_ctx
+'''))
+T('k18_result_handler_records_and_continues', ['C18'], (META, GMAIN, '''        for peri in self.peripherals:
+            try:
+                peri_ctx = inject(peri.get_context, kwargs)
+            except Exception as e:
+                full_ctx.setdefault(peri.group_key, {}).update({'exc_content': repr(e)})
+                continue
+            full_ctx.setdefault(peri.group_key, {}).update(peri_ctx)
+        return full_ctx
+'''))
+T('k18_result_read_only_under_protection', ['C18'], (META, "                cur_general_items = inject(peri.get_general_items, kwargs)\n",
+                                                       "                cur_general_items = inject(peri.get_general_items, dict(kwargs, title=cur_context.get('title')))\n"))
+T('k18_result_helper_returns_both_ways', ['C18'], (META, GMAIN, '''        for peri in self.peripherals:
+            full_ctx.setdefault(peri.group_key, {}).update(self._peri_context(peri, kwargs))
+        return full_ctx
+
+    def _peri_context(self, peri, kwargs):
+        try:
+            peri_ctx = inject(peri.get_context, kwargs)
+        except Exception as e:
+            peri_ctx = {'exc_content': repr(e)}
+        return peri_ctx
+'''))
+
+# ---- R18.c: the handler catches exceptions of any class -- it reads from them only what every exception has ----------------
+B('k18_handler_reads_message', ['C18'], 'R18.c', (META, "                peri_ctx = {'exc_content': repr(e)}\n", "                peri_ctx = {'exc_content': '%s: %s' % (type(e).__name__, e.message)}\n"))
+B('k18_handler_reads_errno', ['C18'], 'R18.c', (META, "            except Exception as e:\n                cur['exc_content'] = repr(e)\n",
+                                                      "            except Exception as e:\n                cur['exc_content'] = repr(e)\n                cur['exc_code'] = e.errno\n"))
+B('k18_handler_helper_reads_code', ['C18'], 'R18.c', (META, "                peri_ctx = {'exc_content': repr(e)}\n", "                peri_ctx = {'exc_content': _exc_text(e)}\n"),
+  (META, "def _process_items(all_items):", "def _exc_text(exc):\n    return '%s (%s)' % (repr(exc), exc.code)\n\n\ndef _process_items(all_items):"))
+T('k18_handler_reads_args_and_class', ['C18'], (META, "                peri_ctx = {'exc_content': repr(e)}\n",
+                                                  "                peri_ctx = {'exc_content': '%s%r' % (e.__class__.__name__, e.args)}\n"))
+T('k18_handler_getattr_default', ['C18'], (META, "                peri_ctx = {'exc_content': repr(e)}\n",
+                                              "                peri_ctx = {'exc_content': repr(e), 'exc_code': getattr(e, 'code', None)}\n"))
+T('k18_handler_hasattr_guard', ['C18'], (META, "                peri_ctx = {'exc_content': repr(e)}\n",
+                                            "                peri_ctx = {'exc_content': repr(e)}\n                if hasattr(e, 'code'):\n                    peri_ctx['exc_code'] = e.code\n"))
+T('k18_handler_nested_try', ['C18'], (META, "                peri_ctx = {'exc_content': repr(e)}\n",
+                                         "                peri_ctx = {'exc_content': repr(e)}\n                try:\n                    peri_ctx['exc_code'] = e.code\n                except AttributeError:\n                    pass\n"))
+
+# ---- R18.a: glom(x, 'resources') / glom(x, T.resources) is the same read as x.resources ------------------------------------
+T('k18_glom_string_spec', ['C18'], (META, "    for key, val in _application.resources.items():", "    for key, val in glom(_application, 'resources').items():"))
+T('k18_glom_t_spec', ['C18'], (META, "    for key, val in _application.resources.items():", "    resources = glom(_application, T.resources)\n    for key, val in resources.items():"))
+T('k18_glom_names_only', ['C18'], (META, "        elif arg in route.resources:", "        elif arg in glom(route, 'resources', default={}):"))
+B('k18_glom_string_spec_unguarded', ['C18'], 'R18.a', (META, GRI, '''def get_resource_info(_application):
+    ret = []
+    for key, val in glom(_application, 'resources').items():
+        ret.append({'key': key, 'value': _trunc(repr(val))})
+    return ret
+'''))
+B('k18_glom_t_spec_values', ['C18'], 'R18.a', (META, "        return {'resources': get_resource_info(_application)}",
+                                                   "        return {'resources': get_resource_info(_application), 'count': len(set(map(repr, glom(_application, T.resources).values())))}"))
+B('k18_glom_path_through_mapping', ['C18'], 'R18.a', (META, "        return {'abs_start_time': str(start_time),", "        return {'db': repr(glom(_meta_application, 'resources.db_secret', default=None)), 'abs_start_time': str(start_time),"))
+B('k18_glom_constant_spec_values', ['C18'], 'R18.a', (META, "DEFAULT_PAGE_TITLE = 'Clastic'\n", "DEFAULT_PAGE_TITLE = 'Clastic'\n_RES_SPEC = 'resources'\n"),
+  (META, "        return {'middlewares': get_mw_infos(_application)}", "        return {'middlewares': get_mw_infos(_application), 'res': [repr(v) for v in glom(_application, _RES_SPEC).values()]}"))
